@@ -11,8 +11,16 @@
 //!      `buildGrammar` / `specGrammar` applied to the oracle AST.
 //! Request `0 kind <ast> <extras> <text>` is self-contained (replayable); request `1 kind <text> <plain>`
 //! is a corpus witness: a text and the same text with its comments removed must give the same grammar;
-//! request `2 inc <layout text>` ties the model of `parse_ws` to the real skipper through whole parses.
-use crate::gen::yacc::{random_ygrammar, OAst, OProd, ORule, Sp, YKind};
+//! request `2 inc <layout text>` ties the model of `parse_ws` to the real skipper through whole parses;
+//! request `3 kind <pre> <post> <rules>` (text -> AST stage, `run_rt`): the abstract description of the
+//! rules section of a generated grammar that falls inside the hypotheses of the Lean theorem
+//! `C10.parse_rules_roundtrip`, rendered canonically after the grammar's declarations; `I` is the real
+//! parser's AST (start, rules, productions, token set, all spans) on that text, to be equal to the
+//! model's (`M`) and to the image of the description computed without parsing (`S`);
+//! request `4 kind <decls> <rules> <programs>` (`run_file`): the same for the WHOLE file — declarations,
+//! rules and programs all described abstractly and rendered canonically (hypotheses of
+//! `C10.parse_roundtrip_partial`); `I` is every field of the real `GrammarAST`.
+use crate::gen::yacc::{random_ygrammar, OAst, OProd, ORule, Sp, YDecl, YGrammar, YKind, YS};
 use crate::out::{guarded, Out};
 use crate::rng::Rng;
 use crate::Args;
@@ -949,6 +957,763 @@ fn corpus(out: &mut Out) {
     }
 }
 
+
+// ---- text -> AST stage: canonical rendering of a description of the rules section (request 3) ------------
+
+#[derive(Clone, Debug)]
+struct RTok {
+    /// the quote character, or None for a bare name
+    q: Option<char>,
+    text: String,
+}
+#[derive(Clone, Debug)]
+struct RProd {
+    empty: bool,
+    syms: Vec<RTok>,
+    prec: Option<RTok>,
+    action: Option<String>,
+}
+#[derive(Clone, Debug)]
+struct RRule {
+    name: String,
+    /// the `-> type` of the rule header (Grmtools), else empty
+    ty: String,
+    prods: Vec<RProd>,
+}
+
+/// `[a-zA-Z_.][a-zA-Z0-9_.]*` (RE_NAME and the third alternative of RE_TOKEN)
+fn rt_is_name(s: &str) -> bool {
+    let mut cs = s.chars();
+    match cs.next() {
+        Some(c) if c.is_ascii_alphabetic() || c == '_' || c == '.' => cs.all(|c| c.is_ascii_alphanumeric() || c == '_' || c == '.'),
+        _ => false,
+    }
+}
+/// Lean `wfQuotedText`
+fn rt_wf_quoted(q: char, s: &str) -> bool {
+    let mut cs = s.chars();
+    match cs.next() {
+        Some(c) if c != '\n' => cs.all(|d| d != q && d != '\n'),
+        _ => false,
+    }
+}
+/// Lean `braceScan 1 a == some 1`
+fn rt_wf_action(a: &str) -> bool {
+    let mut c: usize = 1;
+    for ch in a.chars() {
+        if ch == '{' {
+            c += 1;
+        } else if ch == '}' {
+            if c <= 1 {
+                return false;
+            }
+            c -= 1;
+        }
+    }
+    c == 1
+}
+fn rt_tok_text(t: &RTok) -> String {
+    match t.q {
+        Some(q) => format!("{}{}{}", q, t.text, q),
+        None => t.text.clone(),
+    }
+}
+/// Lean `wfType`
+fn rt_wf_type(t: &str) -> bool {
+    let cs: Vec<char> = t.chars().collect();
+    match cs.first() {
+        Some(c) if !matches!(c, ' ' | '\t' | '\n' | '\r' | '/') => {}
+        _ => return false,
+    }
+    let mut i = 0;
+    while i < cs.len() {
+        if cs[i] == ':' {
+            if i + 1 < cs.len() && cs[i + 1] == ':' {
+                i += 2;
+            } else {
+                return false;
+            }
+        } else {
+            i += 1;
+        }
+    }
+    true
+}
+/// Lean `renderRules`
+fn rt_render(grm: bool, rs: &[RRule]) -> String {
+    let mut s = String::new();
+    for r in rs {
+        s.push_str(&r.name);
+        if grm {
+            s.push_str(" -> ");
+            s.push_str(&r.ty);
+        }
+        s.push_str(": ");
+        for (i, p) in r.prods.iter().enumerate() {
+            if i > 0 {
+                s.push_str("| ");
+            }
+            if p.empty {
+                s.push_str("%empty ");
+            }
+            for t in &p.syms {
+                s.push_str(&rt_tok_text(t));
+                s.push(' ');
+            }
+            if let Some(t) = &p.prec {
+                s.push_str("%prec ");
+                s.push_str(&rt_tok_text(t));
+                s.push(' ');
+            }
+            if let Some(a) = &p.action {
+                s.push('{');
+                s.push_str(a);
+                s.push_str("} ");
+            }
+        }
+        s.push_str(";\n");
+    }
+    s
+}
+fn rt_e_tok(v: &mut Vec<u64>, t: &RTok) {
+    match t.q {
+        Some(q) => {
+            v.push(1);
+            v.push(q as u64);
+        }
+        None => {
+            v.push(0);
+            v.push(0);
+        }
+    }
+    e_str(v, &t.text);
+}
+fn rt_e_prod(v: &mut Vec<u64>, p: &RProd) {
+    v.push(p.empty as u64);
+    v.push(p.syms.len() as u64);
+    for t in &p.syms {
+        rt_e_tok(v, t);
+    }
+    match &p.prec {
+        None => v.push(0),
+        Some(t) => {
+            v.push(1);
+            rt_e_tok(v, t);
+        }
+    }
+    e_ostr(v, &p.action);
+}
+fn rt_encode(kind: YKind, pre: &str, post: &str, rs: &[RRule]) -> String {
+    let mut v: Vec<u64> = vec![3, kcode(kind)];
+    e_str(&mut v, pre);
+    e_str(&mut v, post);
+    v.push(rs.len() as u64);
+    for r in rs {
+        e_str(&mut v, &r.name);
+        e_str(&mut v, &r.ty);
+        rt_e_prod(&mut v, &r.prods[0]);
+        v.push((r.prods.len() - 1) as u64);
+        for p in &r.prods[1..] {
+            rt_e_prod(&mut v, p);
+        }
+    }
+    crate::out::join(&v)
+}
+fn rt_d_tok(c: &mut Cur) -> Option<RTok> {
+    let t = c.nat()?;
+    let q = c.nat()?;
+    let text = c.str()?;
+    Some(RTok { q: if t == 0 { None } else { Some(char::from_u32(q as u32)?) }, text })
+}
+fn rt_d_prod(c: &mut Cur) -> Option<RProd> {
+    let empty = c.nat()? == 1;
+    let n = c.us()?;
+    let mut syms = Vec::new();
+    for _ in 0..n {
+        syms.push(rt_d_tok(c)?);
+    }
+    let prec = if c.nat()? == 0 { None } else { Some(rt_d_tok(c)?) };
+    let action = c.ostr()?;
+    Some(RProd { empty, syms, prec, action })
+}
+fn rt_decode(v: &[u64]) -> Option<(YKind, String, String, Vec<RRule>)> {
+    let mut c = Cur { v, i: 0 };
+    let kind = kind_of(c.nat()?);
+    let pre = c.str()?;
+    let post = c.str()?;
+    let n = c.us()?;
+    let mut rs = Vec::new();
+    for _ in 0..n {
+        let name = c.str()?;
+        let ty = c.str()?;
+        let mut prods = vec![rt_d_prod(&mut c)?];
+        let m = c.us()?;
+        for _ in 0..m {
+            prods.push(rt_d_prod(&mut c)?);
+        }
+        rs.push(RRule { name, ty, prods });
+    }
+    Some((kind, pre, post, rs))
+}
+
+/// the format of `Drive/C10T.lean`'s `fAst`
+fn rt_dump(o: &OAst) -> String {
+    let fns = |n: &str, sp: Sp| format!("{} {}-{}", f_str(n), sp.0, sp.1);
+    let st = match &o.start {
+        None => "N".to_string(),
+        Some((n, sp)) => fns(n, *sp),
+    };
+    let mut rule_of = vec![String::new(); o.prods.len()];
+    for r in &o.rules {
+        for &p in &r.pidxs {
+            if p < rule_of.len() {
+                rule_of[p] = r.name.clone();
+            }
+        }
+    }
+    let mut rl = vec![o.rules.len().to_string()];
+    rl.extend(o.rules.iter().map(|r| fns(&r.name, r.span)));
+    let pl: Vec<String> = o
+        .prods
+        .iter()
+        .enumerate()
+        .map(|(i, p)| {
+            let mut sy = vec![p.syms.len().to_string()];
+            sy.extend(p.syms.iter().map(|(t, n, sp)| format!("{}{} {}-{}", if *t { "t" } else { "r" }, f_str(n), sp.0, sp.1)));
+            format!(
+                "P {} {} {} {} {}-{}",
+                f_str(&rule_of[i]),
+                sy.join(" "),
+                p.prec.as_ref().map_or("N".to_string(), |n| f_str(n)),
+                p.action.is_some() as u8,
+                p.span.0,
+                p.span.1
+            )
+        })
+        .collect();
+    let mut tl = vec![o.tokens.len().to_string()];
+    tl.extend(o.tokens.iter().map(|(n, sp)| fns(n, *sp)));
+    format!("st {} R {} {} T {}", st, rl.join(" "), pl.join(" "), tl.join(" "))
+}
+
+/// the description of the rules section of `g` in the abstract syntax of `Lemmas/YaccRender.lean`, or the
+/// reason why `g` falls outside the hypotheses of `parse_rules_roundtrip`
+fn rt_describe(g: &YGrammar, rng: &mut Rng, moved: &mut bool) -> Result<Vec<RRule>, &'static str> {
+    let spell = |t: usize, declared_ok: bool, rng: &mut Rng| -> Result<RTok, &'static str> {
+        let name = &g.toks[t];
+        let mut opts: Vec<RTok> = Vec::new();
+        if declared_ok && rt_is_name(name) {
+            opts.push(RTok { q: None, text: name.clone() });
+        }
+        for q in ['\'', '"'] {
+            if rt_wf_quoted(q, name) {
+                opts.push(RTok { q: Some(q), text: name.clone() });
+            }
+        }
+        if opts.is_empty() {
+            return Err("token_text_cannot_be_quoted");
+        }
+        Ok(opts[rng.below(opts.len())].clone())
+    };
+    let mut rs = Vec::new();
+    for ch in &g.chunks {
+        let name = g.rules[ch.rule].clone();
+        if !rt_is_name(&name) {
+            return Err("rule_name");
+        }
+        if ch.prods.is_empty() {
+            return Err("rule_without_production");
+        }
+        let ty = if g.kind == YKind::Grmtools { g.rule_types[ch.rule].clone().unwrap_or_else(|| "()".to_string()) } else { String::new() };
+        if g.kind == YKind::Grmtools && !rt_wf_type(&ty) {
+            return Err("action_type_has_a_single_colon_or_leading_layout");
+        }
+        let mut prods = Vec::new();
+        for p in &ch.prods {
+            let mut syms = Vec::new();
+            for s in &p.syms {
+                match s {
+                    YS::T(t) => syms.push(spell(*t, g.declared[*t], rng)?),
+                    YS::R(r) => {
+                        if !rt_is_name(&g.rules[*r]) {
+                            return Err("rule_name");
+                        }
+                        syms.push(RTok { q: None, text: g.rules[*r].clone() })
+                    }
+                }
+            }
+            let prec = match p.prec {
+                None => None,
+                Some((t, pos)) => {
+                    if pos < p.syms.len() {
+                        *moved = true;
+                    }
+                    Some(spell(t, true, rng)?)
+                }
+            };
+            let action = p.action.as_ref().map(|a| format!("{}{}{}", a.lpad, a.core, a.rpad));
+            if let Some(a) = &action {
+                if !rt_wf_action(a) {
+                    return Err("action_braces_not_balanced");
+                }
+            }
+            prods.push(RProd { empty: p.syms.is_empty() && p.empty_kw, syms, prec, action });
+        }
+        rs.push(RRule { name, ty, prods });
+    }
+    Ok(rs)
+}
+
+fn run_rt(out: &mut Out, kind: YKind, pre: &str, post: &str, rs: &[RRule], tag: &str) {
+    let id = out.id();
+    let text = format!("{}%%\n{}{}", pre, rt_render(kind == YKind::Grmtools, rs), post);
+    let i_line = match guarded(AssertUnwindSafe(|| ASTWithValidityInfo::new(yk(kind), &text))) {
+        Err(e) => format!("panic {}", e),
+        Ok(v) => {
+            if !v.is_valid() {
+                format!("err {}", v.errors().len())
+            } else {
+                format!("ok {} {}", text.len(), rt_dump(&from_real(v.ast())))
+            }
+        }
+    };
+    out.case("C10", id, &rt_encode(kind, pre, post, rs));
+    out.imp(id, "I", &i_line);
+    out.imp(id, "D", &format!("roundtrip {} {:?} text={:?}", tag, kind, text));
+    out.count("tag.roundtrip");
+    out.count("cases_within_the_roundtrip_hypotheses");
+    out.count(&format!("roundtrip.kind.{}", match kind { YKind::Orig(_) => "original", YKind::Grmtools => "grmtools", YKind::Eco => "eco" }));
+    let np: usize = rs.iter().map(|r| r.prods.len()).sum();
+    out.count(&format!("roundtrip.rules.{}", rs.len()));
+    out.count(&format!("roundtrip.prods.{}", np.min(12)));
+    let mut names: Vec<&str> = rs.iter().map(|r| r.name.as_str()).collect();
+    names.sort();
+    names.dedup();
+    if names.len() < rs.len() {
+        out.count("roundtrip.has.rule_defined_twice");
+    }
+    if rs.iter().any(|r| r.prods.iter().any(|p| p.empty)) {
+        out.count("roundtrip.has.%empty");
+    }
+    if rs.iter().any(|r| r.prods.iter().any(|p| p.syms.is_empty() && !p.empty)) {
+        out.count("roundtrip.has.empty_production_without_keyword");
+    }
+    if rs.iter().any(|r| r.prods.iter().any(|p| p.prec.is_some())) {
+        out.count("roundtrip.has.%prec");
+    }
+    if rs.iter().any(|r| r.prods.iter().any(|p| p.prec.as_ref().is_some_and(|t| t.q.is_none()))) {
+        out.count("roundtrip.has.%prec_bare");
+    }
+    if rs.iter().any(|r| r.prods.iter().any(|p| p.action.is_some())) {
+        out.count("roundtrip.has.action");
+    }
+    if rs.iter().any(|r| r.prods.iter().any(|p| p.action.as_ref().is_some_and(|a| a.contains('{')))) {
+        out.count("roundtrip.has.action_with_nested_braces");
+    }
+    if rs.iter().any(|r| r.prods.iter().any(|p| p.action.as_ref().is_some_and(|a| a.contains('\n') || a.contains('\r')))) {
+        out.count("roundtrip.has.action_with_newline");
+    }
+    if rs.iter().any(|r| r.prods.iter().any(|p| p.syms.iter().any(|t| t.q.is_none() && !rs.iter().any(|r2| r2.name == t.text)))) {
+        out.count("roundtrip.has.bare_token_or_undefined_rule");
+    }
+    if rs.iter().any(|r| r.prods.iter().any(|p| p.syms.iter().any(|t| t.q == Some('"')))) {
+        out.count("roundtrip.has.double_quoted");
+    }
+    if !text.is_ascii() {
+        out.count("roundtrip.has.multibyte");
+    }
+    if !post.is_empty() {
+        out.count("roundtrip.has.programs");
+    }
+}
+
+/// the rules section of a generated grammar, described abstractly and rendered canonically after the
+/// grammar's own declarations (plain layout)
+fn run_rt_gen(out: &mut Out, g: &YGrammar, rng: &mut Rng) {
+    let mut moved = false;
+    match rt_describe(g, rng, &mut moved) {
+        Err(why) => {
+            out.count("cases_outside_the_roundtrip_hypotheses");
+            out.count(&format!("roundtrip.outside.{}", why));
+        }
+        Ok(rs) => {
+            if moved {
+                out.count("roundtrip.%prec_moved_behind_the_symbols");
+            }
+            let mut g0 = g.clone();
+            g0.chunks.clear();
+            g0.programs = None;
+            let (t0, _, _, _) = g0.render(rng, 0);
+            let cut = t0.rfind("%%").unwrap_or(t0.len());
+            let pre = &t0[..cut];
+            let post = match &g.programs {
+                None => String::new(),
+                Some(p) => format!("%%\n{}", p),
+            };
+            run_rt(out, g.kind, pre, &post, &rs, "generated");
+        }
+    }
+}
+
+// ---- text -> AST stage: a whole file described abstractly (request 4) ----------------------------------------
+
+#[derive(Clone, Debug)]
+enum RDecl {
+    Start(String),
+    Token(Vec<RTok>),
+    Prec(u8, Vec<RTok>),
+    Avoid(Vec<RTok>),
+    Implicit(Vec<RTok>),
+    Expect(String),
+    ExpectRR(String),
+    ActionType(String),
+    ParseParam(String, String),
+    Epp(RTok, String),
+}
+
+/// Lean `wfLine`
+fn rt_wf_line(t: &str) -> bool {
+    match t.chars().next() {
+        Some(c) if !matches!(c, ' ' | '\t' | '\n' | '\r' | '/') => !t.contains('\n') && !t.contains('\r'),
+        _ => false,
+    }
+}
+fn rt_render_toks(s: &mut String, ts: &[RTok]) {
+    for (i, t) in ts.iter().enumerate() {
+        if i > 0 {
+            s.push(' ');
+        }
+        s.push_str(&rt_tok_text(t));
+    }
+    s.push('\n');
+}
+/// Lean `renderDecls`
+fn rt_render_decls(ds: &[RDecl]) -> String {
+    let mut s = String::new();
+    for d in ds {
+        match d {
+            RDecl::Start(n) => s.push_str(&format!("%start {}\n", n)),
+            RDecl::Token(ts) => {
+                s.push_str("%token ");
+                rt_render_toks(&mut s, ts);
+            }
+            RDecl::Prec(k, ts) => {
+                s.push_str(["%left ", "%right ", "%nonassoc "][*k as usize]);
+                rt_render_toks(&mut s, ts);
+            }
+            RDecl::Avoid(ts) => {
+                s.push_str("%avoid_insert ");
+                rt_render_toks(&mut s, ts);
+            }
+            RDecl::Implicit(ts) => {
+                s.push_str("%implicit_tokens ");
+                rt_render_toks(&mut s, ts);
+            }
+            RDecl::Expect(n) => s.push_str(&format!("%expect {}\n", n)),
+            RDecl::ExpectRR(n) => s.push_str(&format!("%expect-rr {}\n", n)),
+            RDecl::ActionType(t) => s.push_str(&format!("%actiontype {}\n", t)),
+            RDecl::ParseParam(n, t) => s.push_str(&format!("%parse-param {}: {}\n", n, t)),
+            RDecl::Epp(t, v) => s.push_str(&format!("%epp {} \"{}\"\n", rt_tok_text(t), v.replace('"', "\\\""))),
+        }
+    }
+    s
+}
+fn rt_e_toks(v: &mut Vec<u64>, ts: &[RTok]) {
+    v.push(ts.len() as u64);
+    for t in ts {
+        rt_e_tok(v, t);
+    }
+}
+fn rt_e_rules(v: &mut Vec<u64>, rs: &[RRule]) {
+    v.push(rs.len() as u64);
+    for r in rs {
+        e_str(v, &r.name);
+        e_str(v, &r.ty);
+        rt_e_prod(v, &r.prods[0]);
+        v.push((r.prods.len() - 1) as u64);
+        for p in &r.prods[1..] {
+            rt_e_prod(v, p);
+        }
+    }
+}
+fn rt_encode_file(kind: YKind, ds: &[RDecl], rs: &[RRule], prog: &Option<String>) -> String {
+    let mut v: Vec<u64> = vec![4, kcode(kind), ds.len() as u64];
+    for d in ds {
+        match d {
+            RDecl::Start(n) => {
+                v.push(0);
+                e_str(&mut v, n);
+            }
+            RDecl::Token(ts) => {
+                v.push(1);
+                rt_e_toks(&mut v, ts);
+            }
+            RDecl::Prec(k, ts) => {
+                v.push(2);
+                v.push(*k as u64);
+                rt_e_toks(&mut v, ts);
+            }
+            RDecl::Avoid(ts) => {
+                v.push(3);
+                rt_e_toks(&mut v, ts);
+            }
+            RDecl::Implicit(ts) => {
+                v.push(4);
+                rt_e_toks(&mut v, ts);
+            }
+            RDecl::Expect(n) => {
+                v.push(5);
+                e_str(&mut v, n);
+            }
+            RDecl::ExpectRR(n) => {
+                v.push(6);
+                e_str(&mut v, n);
+            }
+            RDecl::ActionType(t) => {
+                v.push(7);
+                e_str(&mut v, t);
+            }
+            RDecl::ParseParam(n, t) => {
+                v.push(8);
+                e_str(&mut v, n);
+                e_str(&mut v, t);
+            }
+            RDecl::Epp(t, x) => {
+                v.push(9);
+                rt_e_tok(&mut v, t);
+                e_str(&mut v, x);
+            }
+        }
+    }
+    rt_e_rules(&mut v, rs);
+    e_ostr(&mut v, prog);
+    crate::out::join(&v)
+}
+fn rt_d_toks(c: &mut Cur) -> Option<Vec<RTok>> {
+    let n = c.us()?;
+    let mut l = Vec::new();
+    for _ in 0..n {
+        l.push(rt_d_tok(c)?);
+    }
+    Some(l)
+}
+fn rt_decode_file(v: &[u64]) -> Option<(YKind, Vec<RDecl>, Vec<RRule>, Option<String>)> {
+    let mut c = Cur { v, i: 0 };
+    let kind = kind_of(c.nat()?);
+    let nd = c.us()?;
+    let mut ds = Vec::new();
+    for _ in 0..nd {
+        ds.push(match c.nat()? {
+            0 => RDecl::Start(c.str()?),
+            1 => RDecl::Token(rt_d_toks(&mut c)?),
+            2 => {
+                let k = c.nat()? as u8;
+                RDecl::Prec(k, rt_d_toks(&mut c)?)
+            }
+            3 => RDecl::Avoid(rt_d_toks(&mut c)?),
+            4 => RDecl::Implicit(rt_d_toks(&mut c)?),
+            5 => RDecl::Expect(c.str()?),
+            6 => RDecl::ExpectRR(c.str()?),
+            7 => RDecl::ActionType(c.str()?),
+            8 => {
+                let n = c.str()?;
+                RDecl::ParseParam(n, c.str()?)
+            }
+            9 => {
+                let t = rt_d_tok(&mut c)?;
+                RDecl::Epp(t, c.str()?)
+            }
+            _ => return None,
+        });
+    }
+    let n = c.us()?;
+    let mut rs = Vec::new();
+    for _ in 0..n {
+        let name = c.str()?;
+        let ty = c.str()?;
+        let mut prods = vec![rt_d_prod(&mut c)?];
+        let m = c.us()?;
+        for _ in 0..m {
+            prods.push(rt_d_prod(&mut c)?);
+        }
+        rs.push(RRule { name, ty, prods });
+    }
+    let prog = c.ostr()?;
+    Some((kind, ds, rs, prog))
+}
+
+/// the format of `Drive/C10T.lean`'s `fAstFull`, read off the real `GrammarAST`
+fn rt_dump_full(a: &GrammarAST) -> String {
+    let fsp = |s: Span| format!("{}-{}", s.start(), s.end());
+    let mut td: Vec<String> = a.token_directives.iter().filter_map(|i| a.tokens.get_index(*i)).map(|n| f_str(n)).collect();
+    td.sort();
+    let mut pr: Vec<String> = a.precs.iter().map(|(n, (p, sp))| format!("{} {} {} {}", f_str(n), p.level, akind(p.kind), fsp(*sp))).collect();
+    pr.sort();
+    let fset = |m: &Option<std::collections::HashMap<String, Span>>| match m {
+        None => "N".to_string(),
+        Some(m) => {
+            let mut l: Vec<String> = m.iter().map(|(n, sp)| format!("{} {}", f_str(n), fsp(*sp))).collect();
+            l.sort();
+            let mut v = vec![l.len().to_string()];
+            v.extend(l);
+            v.join(" ")
+        }
+    };
+    let fon = |o: &Option<(usize, Span)>| o.map_or("N".to_string(), |(n, sp)| format!("{} {}", n, fsp(sp)));
+    let mut tdv = vec![td.len().to_string()];
+    tdv.extend(td);
+    let mut prv = vec![pr.len().to_string()];
+    prv.extend(pr);
+    let mut ep: Vec<String> =
+        a.epp.iter().map(|(n, (sp, (v, vsp)))| format!("{} {} {} {}", f_str(n), fsp(*sp), f_str(v), fsp(*vsp))).collect();
+    ep.sort();
+    let mut epv = vec![ep.len().to_string()];
+    epv.extend(ep);
+    format!(
+        "{} TD {} PR {} AV {} IM {} EX {} ER {} PP {} EP {} PG {}",
+        rt_dump(&from_real(a)),
+        tdv.join(" "),
+        prv.join(" "),
+        fset(&a.avoid_insert),
+        fset(&a.implicit_tokens),
+        fon(&a.expect),
+        fon(&a.expectrr),
+        a.parse_param.as_ref().map_or("N".to_string(), |(_, t)| f_str(t)),
+        epv.join(" "),
+        a.programs.as_ref().map_or("N".to_string(), |p| p.len().to_string())
+    )
+}
+
+fn run_file(out: &mut Out, kind: YKind, ds: &[RDecl], rs: &[RRule], prog: &Option<String>, tag: &str) {
+    let id = out.id();
+    let post = match prog {
+        None => String::new(),
+        Some(p) => format!("%%\n{}", p),
+    };
+    let text = format!("{}%%\n{}{}", rt_render_decls(ds), rt_render(kind == YKind::Grmtools, rs), post);
+    let i_line = match guarded(AssertUnwindSafe(|| ASTWithValidityInfo::new(yk(kind), &text))) {
+        Err(e) => format!("panic {}", e),
+        Ok(v) => {
+            if !v.is_valid() {
+                format!("err {}", v.errors().len())
+            } else {
+                format!("ok {} {}", text.len(), rt_dump_full(v.ast()))
+            }
+        }
+    };
+    out.case("C10", id, &rt_encode_file(kind, ds, rs, prog));
+    out.imp(id, "I", &i_line);
+    out.imp(id, "D", &format!("file-roundtrip {} {:?} text={:?}", tag, kind, text));
+    out.count("tag.file_roundtrip");
+    out.count("cases_within_the_file_roundtrip_hypotheses");
+    out.count(&format!("file_roundtrip.decls.{}", ds.len().min(10)));
+    for d in ds {
+        out.count(match d {
+            RDecl::Start(_) => "file_roundtrip.has.%start",
+            RDecl::Token(_) => "file_roundtrip.has.%token",
+            RDecl::Prec(..) => "file_roundtrip.has.precedence_line",
+            RDecl::Avoid(_) => "file_roundtrip.has.%avoid_insert",
+            RDecl::Implicit(_) => "file_roundtrip.has.%implicit_tokens",
+            RDecl::Expect(_) => "file_roundtrip.has.%expect",
+            RDecl::ExpectRR(_) => "file_roundtrip.has.%expect-rr",
+            RDecl::ActionType(_) => "file_roundtrip.has.%actiontype",
+            RDecl::ParseParam(..) => "file_roundtrip.has.%parse-param",
+            RDecl::Epp(..) => "file_roundtrip.has.%epp",
+        });
+    }
+}
+
+/// the declarations of `g` in the abstract syntax of `Lemmas/YaccDeclRender.lean`, or why not
+fn rt_describe_decls(g: &YGrammar, rng: &mut Rng) -> Result<Vec<RDecl>, &'static str> {
+    let spell = |t: usize, rng: &mut Rng| -> Result<RTok, &'static str> {
+        let name = &g.toks[t];
+        let mut opts: Vec<RTok> = Vec::new();
+        if rt_is_name(name) {
+            opts.push(RTok { q: None, text: name.clone() });
+        }
+        for q in ['\'', '"'] {
+            if rt_wf_quoted(q, name) {
+                opts.push(RTok { q: Some(q), text: name.clone() });
+            }
+        }
+        if opts.is_empty() {
+            return Err("token_text_cannot_be_quoted");
+        }
+        Ok(opts[rng.below(opts.len())].clone())
+    };
+    let spell_all = |ts: &[usize], rng: &mut Rng| -> Result<Vec<RTok>, &'static str> {
+        if ts.is_empty() {
+            return Err("empty_token_list");
+        }
+        ts.iter().map(|t| spell(*t, rng)).collect()
+    };
+    let mut ds = Vec::new();
+    for d in &g.decls {
+        ds.push(match d {
+            YDecl::Start(r) => {
+                if !rt_is_name(&g.rules[*r]) {
+                    return Err("rule_name");
+                }
+                RDecl::Start(g.rules[*r].clone())
+            }
+            YDecl::Token(ts) => RDecl::Token(spell_all(ts, rng)?),
+            YDecl::Prec(k, ts) => RDecl::Prec(*k, spell_all(ts, rng)?),
+            YDecl::Epp(t, v) => {
+                if v.contains('\\') || v.contains('\n') || v.contains('\r') {
+                    return Err("%epp_text_with_backslash_or_newline");
+                }
+                RDecl::Epp(spell(*t, rng)?, v.clone())
+            }
+            YDecl::Avoid(ts) => RDecl::Avoid(spell_all(ts, rng)?),
+            YDecl::Implicit(ts) => {
+                if g.kind != YKind::Eco {
+                    return Err("%implicit_tokens_outside_Eco");
+                }
+                RDecl::Implicit(spell_all(ts, rng)?)
+            }
+            YDecl::Expect(n) => RDecl::Expect(n.to_string()),
+            YDecl::ExpectRR(n) => RDecl::ExpectRR(n.to_string()),
+            YDecl::ParseParam(n, ty) => {
+                if !rt_wf_type(n) || n.contains('\n') || n.contains('\r') || !rt_wf_line(ty) {
+                    return Err("%parse-param_text");
+                }
+                RDecl::ParseParam(n.clone(), ty.clone())
+            }
+            YDecl::ActionType(ty) => {
+                if !matches!(g.kind, YKind::Orig(_)) {
+                    return Err("%actiontype_outside_Original");
+                }
+                if !rt_wf_line(ty) {
+                    return Err("%actiontype_text");
+                }
+                RDecl::ActionType(ty.clone())
+            }
+        });
+    }
+    Ok(ds)
+}
+
+fn run_file_gen(out: &mut Out, g: &YGrammar, rng: &mut Rng) {
+    let mut moved = false;
+    let r = rt_describe(g, rng, &mut moved).and_then(|rs| rt_describe_decls(g, rng).map(|ds| (ds, rs)));
+    match r {
+        Err(why) => {
+            out.count("cases_outside_the_file_roundtrip_hypotheses");
+            out.count(&format!("file_roundtrip.outside.{}", why));
+        }
+        Ok((ds, rs)) => {
+            if let Some(p) = &g.programs {
+                if p.starts_with(|c: char| matches!(c, ' ' | '\t' | '\n' | '\r' | '/')) {
+                    out.count("cases_outside_the_file_roundtrip_hypotheses");
+                    out.count("file_roundtrip.outside.programs_begin_with_layout");
+                    return;
+                }
+            }
+            run_file(out, g.kind, &ds, &rs, &g.programs, "generated");
+        }
+    }
+}
+
 const WS_ALPHA: &[&str] = &[" ", "\t", "\n", "\r", "/", "/", "*", "*", "/*", "*/", "//", "\u{e9}", "\n/"];
 
 pub fn run(a: &Args) {
@@ -976,6 +1741,16 @@ pub fn run(a: &Args) {
                     let mut c = Cur { v: &v, i: 1 };
                     if let (Some(k), Some(t), Some(p)) = (c.nat(), c.str(), c.str()) {
                         run_witness(&mut out, kind_of(k), &t, &p, "replay");
+                    }
+                }
+                3 => {
+                    if let Some((kind, pre, post, rs)) = rt_decode(&v[1..]) {
+                        run_rt(&mut out, kind, &pre, &post, &rs, "replay");
+                    }
+                }
+                4 => {
+                    if let Some((kind, ds, rs, prog)) = rt_decode_file(&v[1..]) {
+                        run_file(&mut out, kind, &ds, &rs, &prog, "replay");
                     }
                 }
                 _ => {
@@ -1010,6 +1785,8 @@ pub fn run(a: &Args) {
             let (text, o, _, _) = g.render(&mut rng, level);
             run_case(&mut out, g.kind, &o, &text, ["plain", "moderate", "wild"][level as usize], if level == 0 { "" } else { &descr });
         }
+        run_rt_gen(&mut out, &g, &mut rng);
+        run_file_gen(&mut out, &g, &mut rng);
     }
     let n = if a.thorough { 400000 } else { 40000 };
     for case in 0..n as u64 {
